@@ -359,11 +359,11 @@ static void *updater_main(void *arg)
 #if VP_IS_QSBR
 		/* qsbr: a registered updater is online here; the library takes it offline */
 #endif
-		t->calls++;
+		VP_STORE(t->calls, t->calls + 1);
 		uint64_t c = ts_before();
 		synchronize_rcu();
 		uint64_t r = ts_after();
-		t->returns++;
+		VP_STORE(t->returns, t->returns + 1);
 		__atomic_store_n(&t->y, seq, __ATOMIC_RELAXED);
 		if (old)
 			obj_retire(old);
@@ -405,8 +405,8 @@ static int confirm_stuck(char *buf, size_t len)
 	for (int i = 0; i < n_readers; i++)
 		in_sec += VP_LOAD(thr[i].in_section);
 	for (int i = n_readers; i < n_readers + n_updaters; i++) {
-		calls += thr[i].calls;
-		rets += thr[i].returns;
+		calls += VP_LOAD(thr[i].calls);
+		rets += VP_LOAD(thr[i].returns);
 	}
 	int32_t futex = VP_PEEK(gp_futex)();
 	snprintf(buf, len, "hang:gp:%s:inflight=%llu:readers_in_section=%d:gp_futex=%d",
